@@ -6,6 +6,7 @@ package main
 import (
 	"fmt"
 	"go/types"
+	"strings"
 	"sync"
 
 	"golang.org/x/tools/go/ssa"
@@ -86,6 +87,9 @@ func (in *Interp) spawn(fnv Value, args []Value, where string) {
 	g := &G{id: len(in.gs), name: where, wake: make(chan struct{}, 1), fnv: fnv, args: args}
 	if c, ok := fnv.(*Closure); ok && c != nil {
 		g.name = c.fn.String() + "@" + where
+		if in.acc != nil && isModulePath(pkgPathOf2(c.fn)) && !strings.Contains(c.fn.String(), ".H_") {
+			g.role = "goroutine " + c.fn.Name() + " of " + parentName(c.fn)
+		}
 	}
 	in.gs = append(in.gs, g)
 	in.schedPoint("go")
@@ -489,4 +493,21 @@ func (in *Interp) describeGs() string {
 		s += fmt.Sprintf("[g%d %s %s] ", g.id, g.name, st)
 	}
 	return s
+}
+
+func pkgPathOf2(f *ssa.Function) string {
+	for f.Parent() != nil {
+		f = f.Parent()
+	}
+	if f.Pkg == nil {
+		return ""
+	}
+	return f.Pkg.Pkg.Path()
+}
+
+func parentName(f *ssa.Function) string {
+	if f.Parent() != nil {
+		return f.Parent().Name()
+	}
+	return f.Name()
 }
